@@ -294,7 +294,7 @@ func TestC07(t *testing.T) {
 		keys := func(c Case) []string { return []string{"game"} }
 		_ = keys
 		_ = sort.Strings
-		rec.Rapid(t, "game", evid.Pick(2500, 60000), func(t *rapid.T) {
+		rec.Rapid(t, "game", evid.Pick(15000, 200000), func(t *rapid.T) {
 			c := genCase(t)
 			if rec.WantSample("game") {
 				rec.Sample("game", c)
@@ -304,7 +304,7 @@ func TestC07(t *testing.T) {
 				t.Fatalf("%v", err)
 			}
 		})
-		rec.Rapid(t, "uci", evid.Pick(400, 8000), func(t *rapid.T) {
+		rec.Rapid(t, "uci", evid.Pick(2000, 20000), func(t *rapid.T) {
 			c := genCase(t)
 			c.UCI = true
 			for i := range c.Steps {
